@@ -537,6 +537,57 @@ func craftCalls() int {
 	return int(evid.EnvInt("VERIF_CRAFT_CALLS", 6))
 }
 
+// TestDeviatingSigner: signatures of a signer that knows the secret key and replaces the
+// commitment hash c~ by a value differing in one drawn bit (any of its lambda/4 bytes) before
+// sampling the challenge, then finishes the signature consistently. FIPS 204 verification
+// recomputes c~' and compares all lambda/4 bytes; flipping bits of an honest signature cannot
+// reach this (the challenge, hence w1', changes). Two-sided against the reference, like every
+// other candidate. (Added after seeded change C10f, which compared only the first 32 bytes of c~:
+// wrong for ML-DSA-65 / -87 only.)
+func TestDeviatingSigner(t *testing.T) {
+	rapid.Check(t, func(rt *rapid.T) {
+		entropy := rapid.Uint64().Draw(rt, "entropy")
+		detrand.Seed(entropy)
+		ps := drawPset(rt)
+		p := ps.ref
+		seed := gen.BytesN(rt, "seed", 32)
+		msg := gen.Bytes(rt, "msg", 128)
+		ctx := drawCtx(rt, "ctx", false)
+		k := newKeyCase(rt, ps, seed)
+		mPrime, _ := mldsaref.FormatMessage(msg, ctx)
+		mu := mldsaref.ComputeMu(p, k.pkRef, mPrime)
+		var rnd [32]byte
+		copy(rnd[:], gen.BytesN(rt, "rnd", 32))
+		// the tail (bytes from 32 on, absent for ML-DSA-44) is drawn as often as the head
+		pos := rapid.IntRange(0, p.CTildeSize-1).Draw(rt, "ctilde_byte")
+		if p.CTildeSize > 32 && rapid.Bool().Draw(rt, "tail") {
+			pos = rapid.IntRange(32, p.CTildeSize-1).Draw(rt, "ctilde_tail_byte")
+		}
+		bit := rapid.IntRange(0, 7).Draw(rt, "ctilde_bit")
+		tamper := func(c []byte) []byte {
+			out := bytes.Clone(c)
+			out[pos] ^= 1 << bit
+			return out
+		}
+		sig, ok := mldsaref.SignMuDeviating(p, k.skRef, mu, rnd, tamper, mldsaref.StandardAccept(p), 2000)
+		key := fmt.Sprintf("%s/ctilde-byte=%s", ps.name, map[bool]string{true: ">=32", false: "<32"}[pos >= 32])
+		if !ok {
+			evid.Case(key+"/not-produced", false, 0, nil)
+			return
+		}
+		desc := fmt.Sprintf("%v msg=%x ctx=%x deviating signer: c~ byte %d bit %d replaced before sampling the challenge, rnd=%x", k, msg, ctx, pos, bit, rnd)
+		okRef := k.verifyBoth(rt, "deviating-signer", msg, ctx, sig)
+		okMu := k.verifyBothMu(rt, "deviating-signer", mu, sig)
+		if okRef || okMu {
+			rt.Fatalf("harness: the reference accepts a signature whose c~ was replaced: %s\nsig = %x", desc, sig)
+		}
+		evid.Add("deviating_signatures", 1)
+		evid.Case(key, true, evid.NewH().S(ps.name).B(seed).B(msg).B(ctx).I(int64(pos*8+bit)).Sum(), func() any {
+			return map[string]any{"set": ps.name, "ctilde_byte": pos, "bit": bit, "msg_len": len(msg)}
+		})
+	})
+}
+
 func TestBoundarySignatures(t *testing.T) {
 	rapid.Check(t, func(rt *rapid.T) {
 		entropy := rapid.Uint64().Draw(rt, "entropy")
